@@ -71,14 +71,14 @@ theorem eval_block (k : Chain → Packet → Res) (c : Config) (p : Packet) (o :
   | uid s =>
     cases hd : c.dns <;> cases hl : c.noLoopbackIncluded <;>
     simp only [blockRules, loOf_fam, selfCallPort, ownerMatch, hd, hl, evalRules, Rule.fires, List.all_cons, List.all_nil,
-      Match.eval, hk, OwnerId.owns, selfCall, loopbackBypass, onLo, loopbackDst, isTcp, List.cons_append, List.nil_append,
+      Match.eval, hk, OwnerId.owns, selfCall, loopbackBypass, ← dns_eq_dnsActive, ← noLoopbackIncluded_eq, onLo, loopbackDst, isTcp, List.cons_append, List.nil_append,
       if_true, if_false, Bool.false_eq_true, List.contains_cons, List.contains_nil] <;>
     by_cases h4 : (p.uid == s) = true <;> by_cases h3 : (p.proto == Proto.tcp) = true <;>
     by_cases h1 : (p.outIf == "lo") = true <;> simp [h1, h3, h4]
   | gid s =>
     cases hd : c.dns <;> cases hl : c.noLoopbackIncluded <;>
     simp only [blockRules, loOf_fam, selfCallPort, ownerMatch, hd, hl, evalRules, Rule.fires, List.all_cons, List.all_nil,
-      Match.eval, hk, OwnerId.owns, selfCall, loopbackBypass, onLo, loopbackDst, isTcp, List.cons_append, List.nil_append,
+      Match.eval, hk, OwnerId.owns, selfCall, loopbackBypass, ← dns_eq_dnsActive, ← noLoopbackIncluded_eq, onLo, loopbackDst, isTcp, List.cons_append, List.nil_append,
       if_true, if_false, Bool.false_eq_true, List.contains_cons, List.contains_nil] <;>
     by_cases h4 : (p.gid == s) = true <;> by_cases h3 : (p.proto == Proto.tcp) = true <;>
     by_cases h1 : (p.outIf == "lo") = true <;> simp [h1, h3, h4]
